@@ -207,3 +207,81 @@ theorem WF.views_agree_link {g : Graph} (h : WF g) {c : Cont}
       rcases hfl with e | e <;> rw [e] <;> simp [hcond, hscan]
 
 end Nix.Store.Lemmas
+
+namespace Nix.Store.Lemmas
+open Nix.Store Nix.Store.Graph
+
+theorem bfsKeys_acc_mem (g : Graph) (sub : String) : ∀ (fuel : Nat) (q acc : List Nat) (x : Nat),
+    x ∈ acc → x ∈ bfsKeys g sub fuel q acc
+  | 0, _, _, _, h => by simpa [bfsKeys] using h
+  | _ + 1, [], _, _, h => by simpa [bfsKeys] using h
+  | fuel + 1, k :: q, acc, x, h => by
+    rw [bfsKeys]
+    exact bfsKeys_acc_mem g sub fuel _ _ x (List.mem_append_left _ h)
+
+/-- the root of a subtree is among its keys (`find_sections()` / the explicit `srcs.append(item)`) -/
+theorem subtreeKeys_root (g : Graph) (sub : String) (k : Nat) : k ∈ subtreeKeys g sub k := by
+  unfold subtreeKeys
+  rw [bfsKeys]
+  exact bfsKeys_acc_mem g sub _ _ _ k (by simp)
+
+/-- the keys `del c[...]` hands to `delete_all` for the entry whose target is `k` -/
+def doomedKeys (g : Graph) (c : Cont) (k : Nat) : List Nat :=
+  match c.info.flavour with
+  | .sections => subtreeKeys g "sections" k
+  | .sources => subtreeKeys g "sources" k ++ [k]
+  | _ => [k]
+
+theorem mem_doomedKeys_self (g : Graph) (c : Cont) (k : Nat) : k ∈ doomedKeys g c k := by
+  unfold doomedKeys
+  split
+  · exact subtreeKeys_root g "sections" k
+  · simp
+  · simp
+
+/-- **deletion from an owning container of any flavour** (plain, sections, sources; key = name, id, position or the
+entity object): the call succeeds for every key that addresses an entry, and the container afterwards holds exactly
+the old entries whose node is not among the deleted objects (the entry's node and, for sections / sources, its
+subtree), in their old order; the addressed entry is gone -/
+theorem WF.contDel_owning {g : Graph} (h : WF g) {c : Cont}
+    (hok : ∀ l ∈ contEntries g c, EntryOk g c.info l) (hpl : isPlainLike c.info.flavour = true)
+    {e : String × Nat} (hmem : e ∈ contEntries g c) :
+    ∃ g', Store.contDel g c (.ent e.2) = .ok g' ∧
+      cLinks g' c.node = (contEntries g c).filter (fun l => !(doomedKeys g c e.2).contains l.2) ∧
+      e ∉ cLinks g' c.node ∧ (cLinks g' c.node).Sublist (contEntries g c) := by
+  obtain ⟨hkind, _, _⟩ := hok e hmem
+  have hk' : (kindOf g e.2 != c.info.item) = false := by simpa using hkind
+  have hlinks : ∀ ks : List Nat, cLinks (g.deleteObjs ks) c.node = (contEntries g c).filter (fun l => !ks.contains l.2) := by
+    intro ks
+    unfold contEntries cLinks
+    cases hn : c.node with
+    | none => rfl
+    | some cg =>
+      simp only
+      rw [links_deleteObjs]
+      rfl
+  have hgone : ∀ ks : List Nat, e.2 ∈ ks → e ∉ (contEntries g c).filter (fun l => !ks.contains l.2) := by
+    intro ks hin hm
+    have := (List.mem_filter.mp hm).2
+    simp [hin] at this
+  have hsub : ∀ ks : List Nat, ((contEntries g c).filter (fun l => !ks.contains l.2)).Sublist (contEntries g c) :=
+    fun ks => List.filter_sublist
+  have hself := mem_doomedKeys_self g c e.2
+  unfold Store.contDel
+  simp only [hk', Bool.false_eq_true, ↓reduceIte]
+  unfold doomedKeys at hself ⊢
+  cases hfl : c.info.flavour with
+  | plain =>
+    rw [hfl] at hself
+    exact ⟨_, rfl, hlinks _, by rw [hlinks]; exact hgone _ hself, by rw [hlinks]; exact hsub _⟩
+  | sections =>
+    rw [hfl] at hself
+    exact ⟨_, rfl, hlinks _, by rw [hlinks]; exact hgone _ hself, by rw [hlinks]; exact hsub _⟩
+  | sources =>
+    rw [hfl] at hself
+    exact ⟨_, rfl, hlinks _, by rw [hlinks]; exact hgone _ hself, by rw [hlinks]; exact hsub _⟩
+  | link => rw [hfl] at hpl; cases hpl
+  | sourceLink => rw [hfl] at hpl; cases hpl
+  | features => rw [hfl] at hpl; cases hpl
+
+end Nix.Store.Lemmas
